@@ -418,6 +418,62 @@ CollapseRel(pre, he, post, ret, gV) ==
      /\ {{back(q) : q \in OrientedTet(post, c)} : c \in LiveC(post)} = expect
      /\ ret \in LiveV(post) /\ At(gV, ret) = b
 
+(* ------------- C03 through collapse_edge: CollapsePropsFollow ---------- *)
+(* Property values stay attached through the collapse.  Asserted is only    *)
+(* what the statement clearly demands; the bijections are those of          *)
+(* CollapseRel (gV: post vertex slot -> pre vertex slot):                   *)
+(*  V  every live vertex of post carries the values of the pre vertex it is *)
+(*     (b keeps b's values, a's values disappear with a);                   *)
+(*  C  every live cell of post carries the values of the pre cell it came   *)
+(*     from (same oriented vertex 4-set with a replaced by b): rebuilt and   *)
+(*     untouched cells alike;                                               *)
+(*  E HE F HF  edges / faces of pre that do not contain a and are not the   *)
+(*     target of a merge ((b,x) while (a,x) exists, (b,x,y) while (a,x,y)   *)
+(*     exists) keep their values on the post entity with the same vertices, *)
+(*     half-entities on the same side (direction / rotation).  Nothing is   *)
+(*     asserted for entities containing a or merge targets.                 *)
+(* The result is the set of pairs <<post slot, pre slot>> per kind.         *)
+CollapsePropPairs(pre, he, post, gV) ==
+  LET a == From(pre, he)
+      b == To(pre, he)
+      back(q) == [i \in DOMAIN q |-> At(gV, q[i])]
+      backSet(S) == {At(gV, v) : v \in S}
+      keepC == {c \in LiveC(pre) : ~({a, b} \subseteq CellVertSet(pre, c))}
+      sig0 == [c \in keepC |-> {SubstV(q, a, b) : q \in OrientedTet(pre, c)}]
+      moved(S) == (S \ {b}) \cup {a}
+      keepE == {e \in LiveE(pre) : LET S == EdgeVertSet(pre, e) IN
+                  /\ a \notin S
+                  /\ ~(b \in S /\ \E e2 \in LiveE(pre) : EdgeVertSet(pre, e2) = moved(S))}
+      keepF == {f \in LiveF(pre) : LET S == FaceVertSet(pre, f) IN
+                  /\ a \notin S
+                  /\ ~(b \in S /\ \E f2 \in LiveF(pre) : FaceVertSet(pre, f2) = moved(S))}
+      ePairs == {x \in LiveE(post) \X keepE : backSet(EdgeVertSet(post, x[1])) = EdgeVertSet(pre, x[2])}
+      fPairs == {x \in LiveF(post) \X keepF : backSet(FaceVertSet(post, x[1])) = FaceVertSet(pre, x[2])}
+  IN [V  |-> {<<j, At(gV, j)>> : j \in LiveV(post)},
+      C  |-> {x \in LiveC(post) \X keepC : {back(q) : q \in OrientedTet(post, x[1])} = sig0[x[2]]},
+      E  |-> ePairs,
+      HE |-> UNION {{<<2 * x[1] + sd,
+                       IF At(gV, From(post, 2 * x[1] + sd)) = From(pre, 2 * x[2]) THEN 2 * x[2] ELSE 2 * x[2] + 1>> : sd \in {0, 1}} : x \in ePairs},
+      F  |-> fPairs,
+      HF |-> UNION {{<<2 * x[1] + sd,
+                       IF back(HFVerts(post, 2 * x[1] + sd)) \in Rots(HFVerts(pre, 2 * x[2])) THEN 2 * x[2] ELSE 2 * x[2] + 1>> : sd \in {0, 1}} : x \in fPairs},
+      M  |-> {}]
+
+(* one property (P before, Q after: records with k = kind, v = values)      *)
+PropSized(post, Q) == Len(Q.v) = NSlots(post, Q.k)
+PropKeeps(P, Q, pairs) ==
+  \A x \in pairs : /\ x[1] \in 0 .. (Len(Q.v) - 1) /\ x[2] \in 0 .. (Len(P.v) - 1)
+                    /\ At(Q.v, x[1]) = At(P.v, x[2])
+(* "" or the kind of the first property that does not follow                *)
+CollapsePropsFollowMsg(pre, he, post, gV, pprops, qprops) ==
+  IF Len(qprops) # Len(pprops) THEN "count"
+  ELSE IF \E i \in DOMAIN qprops : qprops[i].k # pprops[i].k \/ ~PropSized(post, qprops[i]) THEN "sizes"
+  ELSE LET pairs == CollapsePropPairs(pre, he, post, gV)
+           badI  == {i \in DOMAIN qprops : ~PropKeeps(pprops[i], qprops[i], pairs[qprops[i].k])}
+       IN IF badI = {} THEN "" ELSE qprops[CHOOSE i \in badI : \A k \in badI : i <= k].k
+CollapsePropsFollow(pre, he, post, gV, pprops, qprops) ==
+  CollapsePropsFollowMsg(pre, he, post, gV, pprops, qprops) = ""
+
 (* candidate vertex maps when none is supplied: nothing moved, or the       *)
 (* survivors kept their order                                               *)
 MonotoneVMap(pre, post, a) ==
